@@ -310,6 +310,23 @@ func (w *c10World) doOp(tok string) (out string) {
 		s.ptr = ptr
 		w.mu.Unlock()
 		return "+" + strconv.Itoa(s.id)
+	case name == "a", name == "d":
+		// arm / disarm subscription id through the pointer Subscribe returned (sets / clears OnNext)
+		id, _ := strconv.Atoi(arg)
+		w.mu.Lock()
+		var sub *c10Sub
+		if id >= 1 && id <= len(pub.subs) && !pub.subs[id-1].hidden && pub.subs[id-1].ptr != nil {
+			sub = pub.subs[id-1]
+		}
+		w.mu.Unlock()
+		if sub != nil {
+			if name == "a" {
+				pub.p.SetOnNext(sub.ptr, func(v int) { w.callback(pub, sub, v) })
+			} else {
+				pub.p.SetOnNext(sub.ptr, nil)
+			}
+		}
+		return name
 	case name == "u":
 		id, _ := strconv.Atoi(arg)
 		if ok, pk := w.finishes(func() { w.unsubscribe(pub, id) }); !ok {
